@@ -1639,7 +1639,7 @@ def binop(ctx, op, a, b):
             return simplify_native(as_rope(a) * b)
         if is_sym(b) and z3.is_int(b) and len(as_rope(a)) == 1 and as_rope(a).is_concrete():
             from .seqs import ZSeq, rep
-            return ZSeq(rep(as_rope(a).native()[0], b), "bytes")
+            return ZSeq(rep(as_rope(a).native()[0], b), "bytes", z3.If(b > 0, b, 0), [("rep", as_rope(a).native()[0], b)])
         raise Undecided("bytes repeated a symbolic number of times")
     # strings
     if isinstance(a, (str, SStr)) and isinstance(b, (str, SStr)) and isinstance(op, ast.Add):
@@ -1649,7 +1649,7 @@ def binop(ctx, op, a, b):
             return a * b
         if isinstance(a, str) and len(a) == 1 and is_sym(b) and z3.is_int(b):
             from .seqs import ZSeq, rep
-            return ZSeq(rep(ord(a), b), "str")
+            return ZSeq(rep(ord(a), b), "str", z3.If(b > 0, b, 0), [("rep", ord(a), b)])
         raise Undecided("string repeated a symbolic number of times")
     # lists / tuples
     if isinstance(op, ast.Add) and (isinstance(a, Ref) or isinstance(b, Ref)):
